@@ -60,8 +60,10 @@ def run(model, rep, tier):
             u = update_of(st_)
             if u and u[0] == 'self.Norder' and u[1] == 'Sub' and isinstance(u[2], ast.Constant):
                 reds.add((u[2].value, frozenset(c for c in conditions_at(init, st_) if 'transition' in c or 'vacancy' in c)))
+    from ._common import resolve_local
+    base = [st_ for st_ in walk_local(init) if isinstance(st_, ast.Assign) and unparse(st_.targets[0]) == 'self.Norder' and update_of(st_) is None]
     ok = reds == {(2, frozenset({'transition'})), (1, frozenset({'not transition', 'vacancy'}))} \
-        and pattern.has(init, 'self.Norder = len(self.sites)')
+        and len(base) == 1 and unparse(resolve_local(init, base[0].value)) == 'len(self.sites)'
     rep.ob('normalised-sites', mod, init, 'Norder = number of sites minus the special (2 / 1) sites', ok,
            '' if ok else 'cluster order counts the transition / vacancy sites', engine='eqhash', qual='Cluster.__init__')
     g = ci.methods.get('g')
@@ -82,26 +84,35 @@ def run(model, rep, tier):
     if it is None:
         raise AnalysisError('anchor vanished: Cluster.istransition')
     a0, a1 = [a.arg for a in it.args.args[1:3]]
-    tests = [n.test for n in it.body if isinstance(n, ast.If) and any(isinstance(s, ast.Return) and isinstance(s.value, ast.Constant) and s.value.value is True for s in n.body)]
-    rs = {}
-    for b in pattern.find(it, '_N_R = _N_s.R'):
-        rs[b['_N_s']] = b['_N_R']
-    ok = False
-    if len(tests) == 2 and a0 in rs and a1 in rs:
-        sigma = swap_sigma([(a0, a1), (rs[a0], rs[a1])])
-        ok = canon(rename(tests[0], sigma)) == canon(tests[1])
-        fwd = pattern.has(tests[0], 'self.sites[0] == _N_a - _N_R and self.sites[1] == _N_b - _N_R', 'expr', _N_a=a0, _N_b=a1, _N_R=rs[a0])
+    # the conditions under which True is returned, in order: `if T: return True`, or a final `return T` / `return bool(T)`
+    tnodes = []
+    for n in it.body:
+        if isinstance(n, ast.If) and any(isinstance(s_, ast.Return) and isinstance(s_.value, ast.Constant) and s_.value.value is True for s_ in n.body):
+            tnodes.append((n.test, n))
+            for o in n.orelse:
+                if isinstance(o, ast.If) and any(isinstance(s_, ast.Return) and isinstance(s_.value, ast.Constant) and s_.value.value is True for s_ in o.body):
+                    tnodes.append((o.test, o))
+        elif isinstance(n, ast.Return) and n.value is not None and not isinstance(n.value, ast.Constant):
+            v = n.value
+            if isinstance(v, ast.Call) and unparse(v.func) == 'bool' and len(v.args) == 1:
+                v = v.args[0]
+            tnodes.append((v, n))
+    tests = [t for t, _ in tnodes]
+    if len(tests) != 2:
+        rep.undecided('Cluster.istransition: the two acceptance tests (forward / reverse) were not located')
+    else:
+        # with the local reference vectors written out, the reverse test is the image of the forward one under s0 <-> s1
+        t0, t1 = resolve_local(it, tests[0]), resolve_local(it, tests[1])
+        ok = canon(rename(t0, swap_sigma([(a0, a1)]))) == canon(t1)
+        fwd = canon(t0) == canon(ast.parse('self.sites[0] == %s - %s.R and self.sites[1] == %s - %s.R' % (a0, a0, a1, a0), mode='eval').body)
         ok = ok and fwd
-    rep.ob('transition-either-direction', mod, it, 'istransition: forward test (sites[0], sites[1]) == (s0 - R0, s1 - R0); reverse = its image under s0<->s1',
-           ok, '' if ok else 'a jump given in the reverse direction is not recognised as the same transition state (or only on one site '
-                             'index): i->j and j->i forms of one cluster compare unequal', engine='exchange', qual='Cluster.istransition')
-    # the reverse test is reached only when the cluster is not a vacancy cluster (elif ... return False, or an early return)
-    ifs_true = [n for n in it.body if isinstance(n, ast.If) and any(isinstance(s, ast.Return) and isinstance(s.value, ast.Constant)
-                                                                   and s.value.value is True for s in n.body)]
-    okv = len(ifs_true) == 2 and 'not self.__vacancy__' in conditions_at(it, ifs_true[1]) \
-        and 'not self.__vacancy__' not in conditions_at(it, ifs_true[0])
-    rep.ob('transition-either-direction', mod, it, 'vacancy transition clusters are oriented: no reverse match', okv,
-           '' if okv else 'vacancy TS clusters match the reverse jump', engine='exchange', qual='Cluster.istransition')
+        rep.ob('transition-either-direction', mod, it, 'istransition: forward test (sites[0], sites[1]) == (s0 - R0, s1 - R0); reverse = its image under s0<->s1',
+               ok, '' if ok else 'a jump given in the reverse direction is not recognised as the same transition state (or only on one site '
+                                 'index): i->j and j->i forms of one cluster compare unequal', engine='exchange', qual='Cluster.istransition')
+        # the reverse test is reached only when the cluster is not a vacancy cluster (elif ... return False, or an early return)
+        okv = 'not self.__vacancy__' in conditions_at(it, tnodes[1][1]) and 'not self.__vacancy__' not in conditions_at(it, tnodes[0][1])
+        rep.ob('transition-either-direction', mod, it, 'vacancy transition clusters are oriented: no reverse match', okv,
+               '' if okv else 'vacancy TS clusters match the reverse jump', engine='exchange', qual='Cluster.istransition')
     # ---- orbit closure
     # evaluated on the normal form: a local helper that builds the orbit is written out where it is called
     import re
